@@ -58,6 +58,8 @@ static LIB_ALLOCS: AtomicU64 = AtomicU64::new(0);
 /// if >= 0: the Lib-context allocation request with this ordinal returns null
 static FAIL_AT: AtomicI64 = AtomicI64::new(-1);
 static FAIL_FIRED: AtomicU64 = AtomicU64::new(0);
+/// largest single request (alloc / realloc new size) since the last `window_begin`
+static WINDOW_MAX: AtomicU64 = AtomicU64::new(0);
 static LIVE: [AtomicI64; 4] = [AtomicI64::new(0), AtomicI64::new(0), AtomicI64::new(0), AtomicI64::new(0)];
 /// last flagged detail (size, align) for messages
 static LAST_DETAIL: [AtomicU64; 4] = [
@@ -204,6 +206,7 @@ unsafe impl GlobalAlloc for SimAlloc {
     unsafe fn alloc(&self, layout: Layout) -> *mut u8 {
         let ctx = cur_ctx();
         EVENTS.fetch_add(1, Relaxed);
+        WINDOW_MAX.fetch_max(layout.size() as u64, Relaxed);
         if layout.size() == 0 && ctx != 0 {
             flag(F_ZERO_SIZE, 0, layout.align() as u64, 0, 0);
         }
@@ -227,6 +230,7 @@ unsafe impl GlobalAlloc for SimAlloc {
     unsafe fn alloc_zeroed(&self, layout: Layout) -> *mut u8 {
         let ctx = cur_ctx();
         EVENTS.fetch_add(1, Relaxed);
+        WINDOW_MAX.fetch_max(layout.size() as u64, Relaxed);
         if layout.size() == 0 && ctx != 0 {
             flag(F_ZERO_SIZE, 0, layout.align() as u64, 0, 0);
         }
@@ -286,6 +290,7 @@ unsafe impl GlobalAlloc for SimAlloc {
     unsafe fn realloc(&self, ptr: *mut u8, layout: Layout, new_size: usize) -> *mut u8 {
         let ctx = cur_ctx();
         EVENTS.fetch_add(1, Relaxed);
+        WINDOW_MAX.fetch_max(new_size as u64, Relaxed);
         if new_size == 0 && ctx != 0 {
             flag(F_ZERO_SIZE, 1, layout.align() as u64, 0, 0);
         }
@@ -354,6 +359,12 @@ pub fn flag_detail() -> [u64; 4] {
         LAST_DETAIL[2].load(Relaxed),
         LAST_DETAIL[3].load(Relaxed),
     ]
+}
+pub fn window_begin() {
+    WINDOW_MAX.store(0, Relaxed);
+}
+pub fn window_max_request() -> u64 {
+    WINDOW_MAX.load(Relaxed)
 }
 pub fn events() -> u64 {
     EVENTS.load(Relaxed)
